@@ -278,16 +278,14 @@ int main()
         String t = String::fromInt((int)(uint32_t)v);
         int back = t.toInt();
         int back2 = String::toInt((const char*)t);
-        if(back != back2) { printf("FAULT toInt overloads disagree"); hxEndLine(); continue; }
-        printf("fi32 "); putText(t); printf(" %08lx", (unsigned long)(uint32_t)back);
+        printf("fi32 "); putText(t); printf(" %08lx %08lx", (unsigned long)(uint32_t)back, (unsigned long)(uint32_t)back2);
       }
       else
       {
         String t = String::fromUInt((uint)v);
         uint back = t.toUInt();
         uint back2 = String::toUInt((const char*)t);
-        if(back != back2) { printf("FAULT toUInt overloads disagree"); hxEndLine(); continue; }
-        printf("fu32 "); putText(t); printf(" %08lx", (unsigned long)back);
+        printf("fu32 "); putText(t); printf(" %08lx %08lx", (unsigned long)back, (unsigned long)back2);
       }
     }
     else if((hxIs(l, "fi64", 1) || hxIs(l, "fu64", 1)) && strlen(l.tok[1]) == 16)
@@ -299,16 +297,14 @@ int main()
         String t = String::fromInt64((int64)v);
         int64 back = t.toInt64();
         int64 back2 = String::toInt64((const char*)t);
-        if(back != back2) { printf("FAULT toInt64 overloads disagree"); hxEndLine(); continue; }
-        printf("fi64 "); putText(t); printf(" %016llx", (unsigned long long)back);
+        printf("fi64 "); putText(t); printf(" %016llx %016llx", (unsigned long long)back, (unsigned long long)back2);
       }
       else
       {
         String t = String::fromUInt64((uint64)v);
         uint64 back = t.toUInt64();
         uint64 back2 = String::toUInt64((const char*)t);
-        if(back != back2) { printf("FAULT toUInt64 overloads disagree"); hxEndLine(); continue; }
-        printf("fu64 "); putText(t); printf(" %016llx", (unsigned long long)back);
+        printf("fu64 "); putText(t); printf(" %016llx %016llx", (unsigned long long)back, (unsigned long long)back2);
       }
     }
     else if((hxIs(l, "pi32", 1) || hxIs(l, "pu32", 1) || hxIs(l, "pi64", 1) || hxIs(l, "pu64", 1)) && validHex(l.tok[1]))
@@ -321,22 +317,22 @@ int main()
       if(strcmp(op, "pi32") == 0)
       {
         int a = s.toInt(), b = String::toInt(cs);
-        if(a != b) printf("FAULT toInt overloads disagree"); else printf("pi32 %08lx", (unsigned long)(uint32_t)a);
+        printf("pi32 %08lx %08lx", (unsigned long)(uint32_t)a, (unsigned long)(uint32_t)b);
       }
       else if(strcmp(op, "pu32") == 0)
       {
         uint a = s.toUInt(), b = String::toUInt(cs);
-        if(a != b) printf("FAULT toUInt overloads disagree"); else printf("pu32 %08lx", (unsigned long)a);
+        printf("pu32 %08lx %08lx", (unsigned long)a, (unsigned long)b);
       }
       else if(strcmp(op, "pi64") == 0)
       {
         int64 a = s.toInt64(), b = String::toInt64(cs);
-        if(a != b) printf("FAULT toInt64 overloads disagree"); else printf("pi64 %016llx", (unsigned long long)a);
+        printf("pi64 %016llx %016llx", (unsigned long long)a, (unsigned long long)b);
       }
       else
       {
         uint64 a = s.toUInt64(), b = String::toUInt64(cs);
-        if(a != b) printf("FAULT toUInt64 overloads disagree"); else printf("pu64 %016llx", (unsigned long long)a);
+        printf("pu64 %016llx %016llx", (unsigned long long)a, (unsigned long long)b);
       }
     }
     else if(hxIs(l, "pd", 1) && validHex(l.tok[1]))
@@ -348,7 +344,7 @@ int main()
       double a = s.toDouble(), b = String::toDouble((const char*)s);
       uint64_t ba, bb;
       memcpy(&ba, &a, 8); memcpy(&bb, &b, 8);
-      if(ba != bb) printf("FAULT toDouble overloads disagree"); else printf("pd %016llx", (unsigned long long)ba);
+      printf("pd %016llx %016llx", (unsigned long long)ba, (unsigned long long)bb);
     }
     else if(hxIs(l, "fd", 1) && strlen(l.tok[1]) == 16)
     {
@@ -361,7 +357,49 @@ int main()
       double back = t.toDouble();
       uint64_t bb;
       memcpy(&bb, &back, 8);
-      printf("fd "); putText(t); printf(" %016llx", (unsigned long long)bb);
+      printf("fd "); putText(t); printf(" %016llx %d", (unsigned long long)bb, t.length() < 203 ? 1 : 0);
+    }
+    else if(hxIs(l, "lcs", 2) && validHex(l.tok[2]))
+    {
+      // the libc functions String.cpp calls, called DIRECTLY: ties the Lean definitions of Model.lean to the real libc
+      size_t n; char* t = hxCStr(l.tok[2], n);
+      const char* fn = l.tok[1];
+      if(strcmp(fn, "atoi") == 0) printf("lcs %08lx", (unsigned long)(uint32_t)atoi(t));
+      else if(strcmp(fn, "atol") == 0) printf("lcs %016llx", (unsigned long long)atol(t));
+      else if(strcmp(fn, "atoll") == 0) printf("lcs %016llx", (unsigned long long)atoll(t));
+      else if(strcmp(fn, "strtol") == 0) printf("lcs %016llx", (unsigned long long)strtol(t, 0, 10));
+      else if(strcmp(fn, "strtoll") == 0) printf("lcs %016llx", (unsigned long long)strtoll(t, 0, 10));
+      else if(strcmp(fn, "strtoul") == 0) printf("lcs %016llx", (unsigned long long)strtoul(t, 0, 10));
+      else if(strcmp(fn, "strtoull") == 0) printf("lcs %016llx", (unsigned long long)strtoull(t, 0, 10));
+      else printf("bad-op");
+      free(t);
+    }
+    else if(hxIs(l, "lcf", 3) && strlen(l.tok[2]) == 16 && allDigits(l.tok[3]) && hxNum(l, 3) <= 64)
+    {
+      uint64_t v;
+      if(!hexU64(l.tok[2], 16, v)) { printf("bad-op"); hxEndLine(); continue; }
+      size_t cap = hxNum(l, 3);
+      char* buf = (char*)malloc(cap ? cap : 1);      // exactly sized: ASan sees a store beyond cap
+      memset(buf, 0x55, cap ? cap : 1);
+      const char* c = l.tok[1];
+      int r;
+      if(strcmp(c, "d") == 0) r = snprintf(cap ? buf : 0, cap, "%d", (int)(uint32_t)v);
+      else if(strcmp(c, "u") == 0) r = snprintf(cap ? buf : 0, cap, "%u", (unsigned)(uint32_t)v);
+      else if(strcmp(c, "lld") == 0) r = snprintf(cap ? buf : 0, cap, "%lld", (long long)v);
+      else if(strcmp(c, "llu") == 0) r = snprintf(cap ? buf : 0, cap, "%llu", (unsigned long long)v);
+      else { free(buf); printf("bad-op"); hxEndLine(); continue; }
+      printf("lcf ");
+      hxPutHex(buf, cap ? strlen(buf) : 0);
+      printf(" %d", r);
+      free(buf);
+    }
+    else if(hxIs(l, "cls", 1) && allDigits(l.tok[1]) && hxNum(l, 1) < 256)
+    {
+      char c = (char)(unsigned char)hxNum(l, 1);
+      printf("cls %d%d%d%d%d%d%d%d%d %u %u", (int)String::isSpace(c), (int)String::isAlphanumeric(c), (int)String::isAlpha(c),
+             (int)String::isDigit(c), (int)String::isLowerCase(c), (int)String::isPrint(c), (int)String::isPunct(c),
+             (int)String::isUpperCase(c), (int)String::isHexDigit(c),
+             (unsigned)(unsigned char)String::toLowerCase(c), (unsigned)(unsigned char)String::toUpperCase(c));
     }
     else printf("bad-op");
     hxEndLine();
